@@ -337,10 +337,15 @@ pub fn run_h_with(case: &HCase, svc: &varlink::VarlinkService, rec: &Rec) -> HOb
                 // the careful caller: what `handle` hands back, then what it never took from the reader
                 let mut nb = tail;
                 nb.extend_from_slice(&remaining);
+                let progressed = nb != buf;
                 buf = nb;
                 if i.is_some() && iface.is_none() {
                     upgrade_wire_len = Some(w.out.len());
                     again = !buf.is_empty();
+                } else if i.is_some() {
+                    // an upgraded handler that returned in the middle of the buffered bytes (end of a
+                    // batch) is called again as long as that makes progress
+                    again = !buf.is_empty() && progressed;
                 }
                 iface = i;
             }
